@@ -396,7 +396,7 @@ evaluated at an environment whose key atoms have the stored tag — "every fille
 f(params, key)". -/
 theorem memo_cells_hold_spec (S : ISem) (p : IProg) (hs : safeInternal p = true) (params : Nat → Int)
     (h : List Event) (c : Nat) (tag : List Int) (val : Int)
-    (hc : (runHistory S p (EState.fresh params) h).cells c = some (tag, val)) :
+    (hc : (tag, val) ∈ (runHistory S p (EState.fresh params) h).cells c) :
     ∃ ρ' : Atom → Int, (p.keyAtoms c).map ρ' = tag ∧ val = evalI S ρ' 0 (fun _ => 0) (p.spec c) :=
   runHistory_inv S p hs h _ (memoInv_fresh S p) c tag val hc
 
